@@ -595,6 +595,320 @@ theorem session_id_constant (e : Endpoint) (evs : List Ev) (h : Nat) (hs : e.ses
     | limit => exact hs
     | recv w => exact recvPacket_sid e w h hs
 
+/-! ### the two ends stay in step: the receiver's key epoch is always the one the next packet was sealed under -/
+
+theorem epochsOK_get (ep : Nat) (l : List Wire) (i : Nat) (w : Wire) (h : epochsOK ep l = true)
+    (hw : l[i]? = some w) : w.epoch = endEpoch ep (l.take i) := by
+  induction l generalizing ep i with
+  | nil => simp at hw
+  | cons x r ih =>
+    simp only [epochsOK, Bool.and_eq_true, beq_iff_eq] at h
+    cases i with
+    | zero =>
+      simp at hw; subst hw
+      simp [endEpoch, h.1]
+    | succ j =>
+      simp only [List.getElem?_cons_succ] at hw
+      simp only [List.take_succ_cons, endEpoch]
+      exact ih _ j h.2 hw
+
+theorem endEpoch_take_succ (ep : Nat) (l : List Wire) (i : Nat) (w : Wire) (hw : l[i]? = some w) :
+    endEpoch ep (l.take (i + 1)) = (if w.pkt.type = MSG_NEWKEYS then endEpoch ep (l.take i) + 1 else endEpoch ep (l.take i)) := by
+  induction l generalizing ep i with
+  | nil => simp at hw
+  | cons x r ih =>
+    cases i with
+    | zero => simp at hw; subst hw; simp [endEpoch]
+    | succ j =>
+      simp only [List.getElem?_cons_succ] at hw
+      simp only [List.take_succ_cons, endEpoch]
+      exact ih _ j hw
+
+/-- `out` only ever grows -/
+def Extends (a b : Endpoint) : Prop := ∃ extra, b.out = a.out ++ extra
+
+theorem extends_refl (a : Endpoint) : Extends a a := ⟨[], by simp⟩
+theorem extends_trans {a b c : Endpoint} (h1 : Extends a b) (h2 : Extends b c) : Extends a c := by
+  obtain ⟨x, hx⟩ := h1; obtain ⟨y, hy⟩ := h2
+  exact ⟨x ++ y, by rw [hy, hx, List.append_assoc]⟩
+
+theorem emit_extends (e : Endpoint) (p : Pkt) : Extends e (emit e p) := ⟨_, rfl⟩
+
+theorem sendPacket_extends (e : Endpoint) (p : Pkt) : Extends e (sendPacket e p) := by
+  unfold sendPacket
+  simp only
+  split
+  · split
+    · exact ⟨[⟨⟨MSG_KEXINIT, 0⟩, e.sendEpoch, !false⟩], by simp [sendKexinit, emit]⟩
+    · split
+      · exact ⟨_, by simp only [sendKexinit, emit, List.append_assoc]; rfl⟩
+      · exact ⟨_, by simp only [sendKexinit, emit, List.append_assoc]; rfl⟩
+  · split
+    · exact extends_refl e
+    · split
+      · exact ⟨_, by simp only [emit, List.append_assoc]; rfl⟩
+      · exact emit_extends e p
+
+theorem foldl_sendPacket_extends (l : List Pkt) (e : Endpoint) : Extends e (l.foldl sendPacket e) := by
+  induction l generalizing e with
+  | nil => exact extends_refl e
+  | cons p ps ih => exact extends_trans (sendPacket_extends e p) (ih _)
+
+theorem sendNewkeys_extends (e : Endpoint) : Extends e (sendNewkeys e) := by
+  unfold sendNewkeys flushDeferred
+  simp only
+  refine extends_trans (sendPacket_extends e ⟨MSG_NEWKEYS, 0⟩) (extends_trans ?_ (foldl_sendPacket_extends _ _))
+  exact ⟨[], by simp⟩
+
+theorem recvPacket_extends (e : Endpoint) (w : Wire) : Extends e (recvPacket e w) := by
+  have hf : ∀ e' : Endpoint, e'.out = e.out → Extends e e' := fun e' h => ⟨[], by simp [h]⟩
+  unfold recvPacket
+  split
+  · exact extends_refl e
+  · split
+    · exact hf _ rfl
+    · simp only
+      split
+      · split
+        · exact hf _ rfl
+        · split
+          · split
+            · exact hf _ rfl
+            · exact extends_trans (hf { { e with kexinitSent := false } with kexActive := true } rfl) (sendPacket_extends _ _)
+          · have hk : Extends e (sendKexinit e) := ⟨_, rfl⟩
+            split
+            · exact extends_trans hk ⟨[], by simp⟩
+            · exact extends_trans (extends_trans hk (⟨[], by simp⟩ : Extends (sendKexinit e) { sendKexinit e with kexActive := true }))
+                (sendPacket_extends _ _)
+      · split
+        · split
+          · exact extends_trans (sendPacket_extends e _) (sendNewkeys_extends _)
+          · exact hf _ rfl
+        · split
+          · split
+            · exact sendNewkeys_extends e
+            · exact hf _ rfl
+          · split
+            · split <;> exact hf _ rfl
+            · split
+              · exact extends_refl e
+              · exact hf _ rfl
+
+theorem sendPacket_recvside (e : Endpoint) (p : Pkt) :
+    (sendPacket e p).recvEpoch = e.recvEpoch ∧ (sendPacket e p).failed = e.failed := by
+  unfold sendPacket
+  simp only
+  split <;> split <;> (try split) <;> simp [sendKexinit, emit]
+
+theorem foldl_sendPacket_recvside (l : List Pkt) (e : Endpoint) :
+    (l.foldl sendPacket e).recvEpoch = e.recvEpoch ∧ (l.foldl sendPacket e).failed = e.failed := by
+  induction l generalizing e with
+  | nil => exact ⟨rfl, rfl⟩
+  | cons p ps ih =>
+    simp only [List.foldl_cons]
+    obtain ⟨h1, h2⟩ := ih (sendPacket e p)
+    obtain ⟨h3, h4⟩ := sendPacket_recvside e p
+    exact ⟨h1.trans h3, h2.trans h4⟩
+
+theorem sendNewkeys_recvside (e : Endpoint) :
+    (sendNewkeys e).recvEpoch = e.recvEpoch ∧ (sendNewkeys e).failed = e.failed := by
+  unfold sendNewkeys flushDeferred
+  simp only
+  constructor
+  · rw [(foldl_sendPacket_recvside _ _).1]; exact (sendPacket_recvside e _).1
+  · rw [(foldl_sendPacket_recvside _ _).2]; exact (sendPacket_recvside e _).2
+
+/-- what `recvPacket` does to the receive epoch of an endpoint that does not fail -/
+theorem recvPacket_recvEpoch (e : Endpoint) (w : Wire) (hnf : (recvPacket e w).failed = false) :
+    (recvPacket e w).recvEpoch = (if w.pkt.type = MSG_NEWKEYS then e.recvEpoch + 1 else e.recvEpoch) ∧
+    w.epoch = e.recvEpoch := by
+  unfold recvPacket at hnf ⊢
+  split at hnf
+  · rename_i hf; rw [hf] at hnf; cases hnf
+  · rename_i hf
+    simp only [hf, Bool.false_eq_true, if_false]
+    split at hnf
+    · simp at hnf
+    · rename_i hep
+      have hep' : w.epoch = e.recvEpoch := by simpa using hep
+      simp only [hep, if_false]
+      refine ⟨?_, hep'⟩
+      simp only at hnf ⊢
+      by_cases h20 : w.pkt.type = MSG_KEXINIT
+      · have hne : ¬ (w.pkt.type = MSG_NEWKEYS) := by rw [h20]; simp [MSG_KEXINIT, MSG_NEWKEYS]
+        simp only [h20, if_true] at hnf ⊢
+        simp only [show ¬ (MSG_KEXINIT = MSG_NEWKEYS) by simp [MSG_KEXINIT, MSG_NEWKEYS], if_false]
+        split
+        · simp
+        · split <;> split <;> simp [(sendPacket_recvside _ _).1, sendKexinit, emit]
+      · simp only [h20, if_false] at hnf ⊢
+        by_cases h30 : w.pkt.type = MSG_KEX_INIT
+        · simp only [h30, if_true] at hnf ⊢
+          simp only [show ¬ (MSG_KEX_INIT = MSG_NEWKEYS) by simp [MSG_KEX_INIT, MSG_NEWKEYS], if_false]
+          split
+          · rw [(sendNewkeys_recvside _).1, (sendPacket_recvside _ _).1]
+          · simp
+        · simp only [h30, if_false] at hnf ⊢
+          by_cases h31 : w.pkt.type = MSG_KEX_REPLY
+          · simp only [h31, if_true] at hnf ⊢
+            simp only [show ¬ (MSG_KEX_REPLY = MSG_NEWKEYS) by simp [MSG_KEX_REPLY, MSG_NEWKEYS], if_false]
+            split
+            · rw [(sendNewkeys_recvside _).1]
+            · simp
+          · simp only [h31, if_false] at hnf ⊢
+            by_cases h21 : w.pkt.type = MSG_NEWKEYS
+            · simp only [h21, if_true] at hnf ⊢
+              split at hnf
+              · rename_i hr; simp [hr]
+              · simp at hnf
+            · simp only [h21, if_false] at hnf ⊢
+              split <;> simp
+
+/-- both ends' wire and receive bookkeeping agree -/
+structure SysInv (y : Sys) : Prop where
+  kc : Keys 1 y.c
+  qc : QueueClean y.c
+  ks : Keys 1 y.s
+  qs : QueueClean y.s
+  rs : y.s.failed = false → y.s.recvEpoch = endEpoch 1 (y.c.out.take y.cDelivered)
+  rc : y.c.failed = false → y.c.recvEpoch = endEpoch 1 (y.s.out.take y.sDelivered)
+  bc : y.cDelivered ≤ y.c.out.length
+  bs : y.sDelivered ≤ y.s.out.length
+
+def sysNoNewkeys : List SysEv → Prop
+  | [] => True
+  | .submitC p :: r => p.type ≠ MSG_NEWKEYS ∧ sysNoNewkeys r
+  | .submitS p :: r => p.type ≠ MSG_NEWKEYS ∧ sysNoNewkeys r
+  | _ :: r => sysNoNewkeys r
+
+theorem take_of_extends {a b : Endpoint} (h : Extends a b) (n : Nat) (hn : n ≤ a.out.length) :
+    b.out.take n = a.out.take n := by
+  obtain ⟨x, hx⟩ := h
+  rw [hx, List.take_append_of_le_length hn]
+
+theorem length_of_extends {a b : Endpoint} (h : Extends a b) : a.out.length ≤ b.out.length := by
+  obtain ⟨x, hx⟩ := h
+  rw [hx]; simp
+
+theorem sysInv_init : SysInv Sys.init := by
+  refine ⟨⟨rfl, rfl⟩, ?_, ⟨rfl, rfl⟩, ?_, ?_, ?_, ?_, ?_⟩
+  · intro p hp; cases hp
+  · intro p hp; cases hp
+  · intro _; rfl
+  · intro _; rfl
+  · exact Nat.le_refl _
+  · exact Nat.le_refl _
+
+theorem sysStep_inv (y : Sys) (ev : SysEv) (h : SysInv y)
+    (hev : match ev with | .submitC p => p.type ≠ MSG_NEWKEYS | .submitS p => p.type ≠ MSG_NEWKEYS | _ => True) :
+    SysInv (sysStep y ev) := by
+  cases ev with
+  | submitC p =>
+    simp only [sysStep]
+    have hx := sendPacket_extends y.c p
+    refine ⟨sendPacket_keys 1 y.c p h.kc hev, sendPacket_clean y.c p h.qc hev, h.ks, h.qs, ?_, ?_, ?_, h.bs⟩
+    · intro hf; simp only; rw [take_of_extends hx _ h.bc]; exact h.rs hf
+    · intro hf
+      simp only at hf ⊢
+      rw [(sendPacket_recvside y.c p).2] at hf
+      rw [(sendPacket_recvside y.c p).1]; exact h.rc hf
+    · exact Nat.le_trans h.bc (length_of_extends hx)
+  | submitS p =>
+    simp only [sysStep]
+    have hx := sendPacket_extends y.s p
+    refine ⟨h.kc, h.qc, sendPacket_keys 1 y.s p h.ks hev, sendPacket_clean y.s p h.qs hev, ?_, ?_, h.bc, ?_⟩
+    · intro hf
+      simp only at hf ⊢
+      rw [(sendPacket_recvside y.s p).2] at hf
+      rw [(sendPacket_recvside y.s p).1]; exact h.rs hf
+    · intro hf; simp only; rw [take_of_extends hx _ h.bs]; exact h.rc hf
+    · exact Nat.le_trans h.bs (length_of_extends hx)
+  | limitC =>
+    simp only [sysStep]
+    exact ⟨⟨h.kc.ok, h.kc.cur⟩, h.qc, h.ks, h.qs, h.rs, h.rc, h.bc, h.bs⟩
+  | limitS =>
+    simp only [sysStep]
+    exact ⟨h.kc, h.qc, ⟨h.ks.ok, h.ks.cur⟩, h.qs, h.rs, h.rc, h.bc, h.bs⟩
+  | deliverCS =>
+    simp only [sysStep]
+    split
+    · rename_i w hw
+      obtain ⟨k', q'⟩ := recvPacket_keys 1 y.s w h.ks h.qs
+      have hx := recvPacket_extends y.s w
+      have hlt : y.cDelivered < y.c.out.length := by
+        rcases Nat.lt_or_ge y.cDelivered y.c.out.length with hl | hl
+        · exact hl
+        · rw [List.getElem?_eq_none hl] at hw; cases hw
+      refine ⟨h.kc, h.qc, k', q', ?_, ?_, hlt, ?_⟩
+      · intro hf
+        simp only at hf ⊢
+        obtain ⟨e1, _⟩ := recvPacket_recvEpoch y.s w hf
+        rw [e1, endEpoch_take_succ 1 y.c.out y.cDelivered w hw]
+        have hnf : y.s.failed = false := by
+          cases hfs : y.s.failed with
+          | false => rfl
+          | true => simp [recvPacket, hfs] at hf
+        rw [h.rs hnf]
+      · intro hf; simp only; rw [take_of_extends hx _ h.bs]; exact h.rc hf
+      · exact Nat.le_trans h.bs (length_of_extends hx)
+    · exact h
+  | deliverSC =>
+    simp only [sysStep]
+    split
+    · rename_i w hw
+      obtain ⟨k', q'⟩ := recvPacket_keys 1 y.c w h.kc h.qc
+      have hx := recvPacket_extends y.c w
+      have hlt : y.sDelivered < y.s.out.length := by
+        rcases Nat.lt_or_ge y.sDelivered y.s.out.length with hl | hl
+        · exact hl
+        · rw [List.getElem?_eq_none hl] at hw; cases hw
+      refine ⟨k', q', h.ks, h.qs, ?_, ?_, ?_, hlt⟩
+      · intro hf; simp only; rw [take_of_extends hx _ h.bc]; exact h.rs hf
+      · intro hf
+        simp only at hf ⊢
+        obtain ⟨e1, _⟩ := recvPacket_recvEpoch y.c w hf
+        rw [e1, endEpoch_take_succ 1 y.s.out y.sDelivered w hw]
+        have hnf : y.c.failed = false := by
+          cases hfs : y.c.failed with
+          | false => rfl
+          | true => simp [recvPacket, hfs] at hf
+        rw [h.rc hnf]
+      · exact Nat.le_trans h.bc (length_of_extends hx)
+    · exact h
+
+theorem sysRun_inv (evs : List SysEv) (y : Sys) (h : SysInv y) (hn : sysNoNewkeys evs) : SysInv (sysRun y evs) := by
+  unfold sysRun
+  induction evs generalizing y with
+  | nil => exact h
+  | cons ev rest ih =>
+    simp only [List.foldl_cons]
+    cases ev with
+    | submitC p => exact ih _ (sysStep_inv y _ h hn.1) hn.2
+    | submitS p => exact ih _ (sysStep_inv y _ h hn.1) hn.2
+    | limitC => exact ih _ (sysStep_inv y _ h trivial) hn
+    | limitS => exact ih _ (sysStep_inv y _ h trivial) hn
+    | deliverCS => exact ih _ (sysStep_inv y _ h trivial) hn
+    | deliverSC => exact ih _ (sysStep_inv y _ h trivial) hn
+
+/-- **Both ends switch keys in step, under every interleaving**: in every state reachable by any sequence of
+    submissions, limit expiries and packet deliveries in both directions (simultaneous and repeated re-exchanges
+    included), the next packet due at an endpoint that has not failed is sealed under exactly the epoch that
+    endpoint is receiving with — a packet is never presented to stale or premature keys.  (So the only way the
+    pair can fail is a key-exchange message arriving out of handshake order, never the key switch itself.) -/
+theorem receiver_epoch_matches_next_packet (evs : List SysEv) (hn : sysNoNewkeys evs) :
+    let y := sysRun Sys.init evs
+    (∀ w, y.c.out[y.cDelivered]? = some w → y.s.failed = false → w.epoch = y.s.recvEpoch) ∧
+    (∀ w, y.s.out[y.sDelivered]? = some w → y.c.failed = false → w.epoch = y.c.recvEpoch) := by
+  have h := sysRun_inv evs Sys.init sysInv_init hn
+  simp only
+  constructor
+  · intro w hw hf
+    rw [h.rs hf]
+    exact epochsOK_get 1 _ _ w h.kc.ok hw
+  · intro w hw hf
+    rw [h.rc hf]
+    exact epochsOK_get 1 _ _ w h.ks.ok hw
+
 /-! ### both ends at once; non-vacuity -/
 
 def data (n : Nat) : Pkt := ⟨94, n⟩
